@@ -1,70 +1,2 @@
-// ---- shared spec vocabulary of the orchestration contracts (definitions only, no assumptions
-// except the `uninterp` functions, which stand for facts decided elsewhere or by OpenMLS) ----
-
-// result of MDK::is_pure_self_update_commit — OUT OF REACH (iterator closures over OpenMLS objects):
-// the whitelist itself is unverified, its result is an uninterpreted function of (commit, leaf)
-pub uninterp spec fn pure_self_update(c: StagedCommit, i: LeafNodeIndex) -> bool;
-// C05 decision table, taken from the property text: the author must be a member, and either an
-// admin of the current epoch (admin set read from the MLS group context) or doing nothing but
-// refreshing its own key material
-pub open spec fn commit_authorized(v: MlsView, c: StagedCommit, s: Sender) -> bool {
-    s is Member && member_identity(v, s->Member_0) is Some && ext_valid(v.ext)
-    && (ext_admins(v.ext)@.contains(member_identity(v, s->Member_0)->Some_0) || pure_self_update(c, s->Member_0))
-}
-// C05 "no accepted commit or proposal changes the Nostr identity bound to an existing member"
-pub open spec fn proposal_identity_unchanged(v: MlsView, p: Proposal, s: Sender) -> bool {
-    (p is Update && s is Member && mls_member_exists(v, s->Member_0)) ==>
-        (member_identity(v, s->Member_0) is Some && leaf_identity(p->Update_0.leaf) == member_identity(v, s->Member_0))
-}
-pub open spec fn commit_identities_unchanged(v: MlsView, c: StagedCommit, s: Sender) -> bool {
-    (forall|k: int| 0 <= k < c.ups().len() ==> #[trigger] proposal_identity_unchanged(v, Proposal::Update(Box::new(c.ups()[k].up)), c.ups()[k].snd))
-    && ((c.path_leaf() is Some && s is Member && mls_member_exists(v, s->Member_0)) ==>
-        (member_identity(v, s->Member_0) is Some && leaf_identity(c.path_leaf()->Some_0) == member_identity(v, s->Member_0)))
-}
-
-// fields of the decoded group-data extension (uninterpreted projections of ExtData)
-pub uninterp spec fn ext_valid(e: ExtData) -> bool;       // NostrGroupDataExtension::from_group succeeds
-pub uninterp spec fn ext_name(e: ExtData) -> String;
-pub uninterp spec fn ext_description(e: ExtData) -> String;
-pub uninterp spec fn ext_image_hash(e: ExtData) -> Option<[u8; 32]>;
-pub uninterp spec fn ext_image_key(e: ExtData) -> Option<[u8; 32]>;
-pub uninterp spec fn ext_image_nonce(e: ExtData) -> Option<[u8; 12]>;
-pub uninterp spec fn ext_admins(e: ExtData) -> BTreeSet<PublicKey>;
-pub uninterp spec fn ext_nostr_group_id(e: ExtData) -> [u8; 32];
-pub uninterp spec fn ext_relays(e: ExtData) -> BTreeSet<RelayUrl>;
-
-pub open spec fn opt_secret_is<T>(s: Option<Secret<T>>, v: Option<T>) -> bool {
-    (s is Some) == (v is Some) && (s is Some ==> s->Some_0.val() == v->Some_0)
-}
-
-// C08: the stored record mirrors the MLS state
-pub open spec fn record_mirrors(g: Group, v: MlsView) -> bool {
-    g.epoch == v.epoch
-    && g.name == ext_name(v.ext) && g.description == ext_description(v.ext)
-    && g.image_hash == ext_image_hash(v.ext)
-    && opt_secret_is(g.image_key, ext_image_key(v.ext))
-    && opt_secret_is(g.image_nonce, ext_image_nonce(v.ext))
-    && g.admin_pubkeys == ext_admins(v.ext)
-    && g.nostr_group_id == ext_nostr_group_id(v.ext)
-}
-pub open spec fn group_mirrors_mls(w: World, g: GroupId) -> bool {
-    w.groups.contains_key(g) && w.mls.contains_key(g) && record_mirrors(w.groups[g], w.mls[g])
-    && w.relays.contains_key(g) && w.relays[g] == ext_relays(w.mls[g].ext)
-}
-
-// C06: a refused event leaves nothing behind but (at most) its own failure record
-pub open spec fn only_failure_record(a: World, b: World, id: EventId) -> bool {
-    b == (World { processed: b.processed, ..a })
-    && (b.processed == a.processed
-        || (b.processed.contains_key(id) && b.processed == a.processed.insert(id, b.processed[id]) && b.processed[id].state == ProcessedMessageState::Failed))
-}
-
-// C04: what makes an application rumor acceptable
-pub open spec fn app_rumor_id_valid(a: ApplicationMessage) -> bool {
-    let ru = rumor_of_json(a.bytes());
-    ru.id is None || ru.id->Some_0 == rumor_hash(ru)
-}
-pub open spec fn app_author_ok(a: ApplicationMessage, c: Credential) -> bool {
-    cred_is_basic(c) && cred_identity(c).len() == 32 && pk_bytes_valid(cred_identity(c))
-    && rumor_of_json(a.bytes()).pubkey == pk_from_bytes(cred_identity(c))
-}
+//@include specs_noident.rs
+//@include specs_ident.rs
